@@ -25,26 +25,32 @@ def rule_of(pid):
 
 CHECKS = {
     "C01": hist("TestC01", 6000, 40, 20000, 60,
-                extra_quick=[{"test": "TestC01", "variant": "386", "checks": 1500, "steps": 40, "timeout": 600}],
+                extra_quick=[{"test": "TestC01", "variant": "386", "checks": 1500, "steps": 40, "timeout": 600}, {"test": "TestClosureC01", "timeout": 600}],
                 extra_thorough=[{"test": "TestC01", "variant": "386", "checks": 10000, "steps": 60, "shards": 2, "timeout": 3000}],
                 kf_test="TestKF_C01",
                 essential=["absent_proper_prefix_of_stored", "absent_shares_prefix_gt10", "reinsert_after_delete",
                            "has_node16", "has_node48", "has_node256", "lost_node48", "lost_node256", "inspath_pathsplit_long"]),
     "C02": hist("TestC02", 5000, 40, 15000, 60,
-                extra_quick=[{"test": "TestC02", "variant": "386", "checks": 1500, "steps": 40, "timeout": 600}],
+                extra_quick=[{"test": "TestC02", "variant": "386", "checks": 1500, "steps": 40, "timeout": 600}, {"test": "TestClosureC02", "timeout": 600}],
                 extra_thorough=[{"test": "TestC02", "variant": "386", "checks": 8000, "steps": 60, "shards": 2, "timeout": 3000}],
                 essential=["scan_ge3_after_delete", "has_node16", "has_node48", "has_node256", "lost_node48", "lost_node256"]),
     "C03": hist("TestC03", 6000, 40, 20000, 60,
+                extra_quick=[{"test": "TestClosureC03", "timeout": 600}],
                 essential=["range_nontrivial", "range_bound_absent", "range_reversed", "range_bounds_lcp_gt10", "range_empty_tree"]),
     "C04": hist("TestC04", 6000, 40, 15000, 60,
+                extra_quick=[{"test": "TestClosureC04", "timeout": 600}],
                 essential=["prefix_proper_subset", "prefix_no_match", "prefix_arg_gt10", "has_node16", "has_node48", "has_node256", "has_long_path"]),
     "C05": hist("TestC05", 4000, 40, 12000, 60,
+                extra_quick=[{"test": "TestClosureC05", "timeout": 600}],
                 essential=["extreme_size_0", "extreme_size_1", "extreme_size_many", "k_zero", "k_gt_size", "has_node48", "has_node256"]),
     "C06": hist("TestC06", 5000, 40, 15000, 60,
+                extra_quick=[{"test": "TestClosureC06", "timeout": 600}],
                 essential=["inspath_empty", "inspath_leafsplit", "inspath_pathsplit", "inspath_pathsplit_long", "inspath_childadd", "delete_absent"]),
     "C08": hist("TestC08", 5000, 40, 15000, 60,
+                extra_quick=[{"test": "TestClosureC08", "timeout": 600}],
                 essential=["equal_primary_pair", "nondefault_collator", "delete_present", "has_long_path"]),
     "C09": hist("TestC09", 3000, 40, 8000, 60,
+                extra_quick=[{"test": "TestClosureC09", "timeout": 600}],
                 essential=["multi_field", "same_first_field_pair", "range", "delete_present"]),
     "C11": hist("TestC11", 4000, 40, 8000, 60,
                 extra_quick=[{"test": "TestC11Closure", "timeout": 600}],
@@ -57,9 +63,11 @@ CHECKS = {
     "C13": hist("TestC13", 5000, 40, 12000, 60,
                 essential=["arena_spare_calls", "range", "prefix"]),
     "C14": hist("TestC14", 5000, 40, 10000, 60,
+                extra_quick=[{"test": "TestClosureC14", "timeout": 600}],
                 essential=["iter_nontrivial_all", "iter_nontrivial_backward", "iter_nontrivial_prefix", "iter_nontrivial_range",
                            "iter_nontrivial_topk", "iter_nontrivial_bottomk"]),
     "C15": hist("TestC15", 3000, 40, 6000, 60,
+                extra_quick=[{"test": "TestClosureC15", "timeout": 600}],
                 essential=["bracketed_deep", "delete_absent", "overwrite"]),
     "C07": {
         "kind": "go",
@@ -122,6 +130,8 @@ CHECKS["C19"] = {
     "assumptions": ["the generator is cmd/go-art/main.go + tree.tmpl of the current working tree followed by gofmt, as gen.go's go:generate lines say",
                     "differential check over a finite domain: no random generation is involved; the five instantiations are enumerated completely"],
 }
+for _pid in ("C01", "C02", "C03", "C04", "C05", "C06", "C08", "C09", "C14", "C15"):
+    CHECKS[_pid]["thorough"].append({"test": "TestClosure" + _pid, "timeout": 900})
 for _pid, _t in (("C01", "FuzzC01"), ("C02", "FuzzC02"), ("C11", "FuzzC11")):
     CHECKS[_pid]["thorough"].append({"test": _t, "fuzz": True, "fuzztime": "90s", "timeout": 600, "steps": 60})
 
